@@ -99,12 +99,20 @@ func (w *typeExprWalker) inspectInner(x ast.Expr) bool {
 	parens, ok := x.(*ast.ParenExpr)
 	shouldInspect := ok &&
 		typep.IsTypeExpr(w.info, parens.X) &&
-		(astp.IsStarExpr(parens.X) || astp.IsFuncType(parens.X))
+		(astp.IsStarExpr(parens.X) || astp.IsFuncType(parens.X) || isRecvChanType(parens.X))
 	if shouldInspect {
 		ast.Inspect(parens.X, w.walk)
 		return false
 	}
 	return true
+}
+
+// isRecvChanType reports whether x is a `<-chan T` type expression.
+// Like pointer types, it needs parenthesis when used in a conversion:
+// `<-chan int(x)` is a receive from `chan int(x)`.
+func isRecvChanType(x ast.Expr) bool {
+	typ, ok := x.(*ast.ChanType)
+	return ok && typ.Dir == ast.RECV
 }
 
 func (w *typeExprWalker) walkSignature(typ *ast.FuncType) {
